@@ -34,6 +34,7 @@ type c08Case struct {
 	Delays      bool   `json:"delays"`
 	KeyKind     string `json:"key_kind"`
 	DelStorm    bool   `json:"del_storm,omitempty"` // mostly Del and SetWithTTL on TTL keys across several sweep ticks
+	CostWave    bool   `json:"cost_wave,omitempty"` // one goroutine lowers MaxCost below the cost of single items, holds, restores
 	Stream      uint64 `json:"stream"`
 }
 
@@ -73,6 +74,11 @@ func runC08(c *Ctx) {
 			localDelay()
 		}
 	})
+	ristretto.VerifSetSampledHook(func(owner any, key uint64, incHits int64, sampleKeys []uint64, sampleCosts []int64, minKey uint64, minHits int64, est func(uint64) int64) {
+		if c08DelayOn.Load() {
+			localDelay()
+		}
+	})
 	n := c.N(64, 400)
 	for i := 0; i < n; i++ {
 		if i%c.NParts != c.Part {
@@ -90,6 +96,11 @@ func runC08(c *Ctx) {
 			// many goroutines deleting and re-writing TTL keys while their buckets become due: Del / overwrite vs the sweep
 			cs.DelStorm, cs.TTL, cs.Goroutines, cs.NKeys, cs.MaxCost, cs.SetBuf = true, true, lab.Pick(rng, []int{32, 48, 64}), 100000, 100000000, 32768
 			cs.Ops = 1000
+		}
+		if i%8 == 3 {
+			// UpdateMaxCost shrinking under admissions that are already past their size check: the applier is inside the
+			// eviction loop (widened by delays at the decision hook) when the capacity drops below the newcomer's cost
+			cs.CostWave, cs.MaxCost, cs.NKeys, cs.SetBuf, cs.Delays = true, lab.Pick(rng, []int64{300, 3000}), 1000, 32768, true
 		}
 		cs.Name = fmt.Sprintf("c08-bi%d-nc%d-mc%d-m%v-cb%v-ttl%v-sb%d-g%d", cs.BufferItems, cs.NumCounters, cs.MaxCost, cs.Metrics, cs.Callbacks, cs.TTL, cs.SetBuf, cs.Goroutines)
 		c.J.Case(cs)
@@ -231,7 +242,23 @@ func c08Episode[K ristretto.Key](c *Ctx, wd *lab.Watchdog, cs c08Case, mk func(i
 					call(func() { cache.Clear() })
 				case op < 88:
 					kind = 8
-					call(func() { cache.UpdateMaxCost(cs.MaxCost + int64(rng.Intn(10))) })
+					switch {
+					case cs.CostWave && g == 0:
+						lo := int64(1 + rng.Intn(60))
+						call(func() { cache.UpdateMaxCost(lo) })
+						for end := time.Now().Add(time.Duration(50+rng.Intn(1500)) * time.Microsecond); time.Now().Before(end); {
+							runtime.Gosched()
+						}
+						call(func() { cache.UpdateMaxCost(cs.MaxCost) })
+					case cs.CostWave:
+						kind = 9
+						call(func() { cache.MaxCost() })
+					case rng.Chance(0.2):
+						// lowering is as legal as raising
+						call(func() { cache.UpdateMaxCost(1 + int64(rng.Intn(int(cs.MaxCost)))) })
+					default:
+						call(func() { cache.UpdateMaxCost(cs.MaxCost + int64(rng.Intn(10))) })
+					}
 				case op < 92:
 					kind = 9
 					call(func() { cache.MaxCost() })
